@@ -49,7 +49,12 @@ def gen(rng, tier):
             r['payload'] = rng.choice(['val', 'print', 'zero', 'env'])
         elif mode == 'exec':
             r['payload'] = rng.choice(['ret', 'print', 'raise'])
-        elif mode in ('proc', 'shell'):
+        elif mode == 'shell':
+            # (a request may bring environment variables of its own; a later
+            # one must not see them)
+            r['payload'] = rng.choice(['true', 'false', 'echo', 'setenv',
+                                       'getenv', 'getenv'])
+        elif mode == 'proc':
             r['payload'] = rng.choice(['true', 'false', 'echo'])
         if mode in ('func', 'meth') and rng.random() < 0.3:
             r['timeout'] = rng.choice([0.1, 0.5, 1.0])
@@ -166,7 +171,11 @@ def make_descr(i, r):
     elif mode == 'shell':
         d['mode'] = rp.TASK_SHELL
         d['command'] = {'true': 'true', 'false': 'false',
-                        'echo': 'echo out:shell'}[r['payload']]
+                        'echo': 'echo out:shell',
+                        'setenv': 'echo "set:[$C20_SHELL]"',
+                        'getenv': 'echo "env:[$C20_SHELL]"'}[r['payload']]
+        if r['payload'] == 'setenv':
+            d['environment'] = {'C20_SHELL': 'x'}
     else:
         d['mode'] = rp.TASK_EXECUTABLE
         d['executable'] = '/bin/true'
@@ -220,7 +229,10 @@ def expected(i, r):
     if mode in ('proc', 'shell'):
         return {'true' : {'ok': True},
                 'false': {'ok': False},
-                'echo' : {'ok': True, 'out': 'out:%s' % mode}}[pl]
+                'echo' : {'ok': True, 'out': 'out:%s' % mode},
+                'setenv': {'ok': True, 'out': 'set:[x]'},
+                'getenv': {'ok': True, 'out': 'env:[]',
+                           'clause': 'env_restored'}}[pl]
     return None
 
 
@@ -742,7 +754,7 @@ def _run(seed, scenario, trace=None, tier='quick'):
                                       'val:%s' % r['mode'], det)
                     if exp.get('out') and exp['out'] not in str(
                             t.get('stdout')):
-                        sim.violation(PROP, 'result_tuple',
+                        sim.violation(PROP, exp.get('clause', 'result_tuple'),
                                       'out:%s' % r['mode'], det)
                     if exp.get('err') and exp['err'] not in str(
                             t.get('stderr')):
